@@ -200,6 +200,7 @@ func __forall(f any) bool { panic("spec-only") }
 func __exists(f any) bool { panic("spec-only") }
 func __imp(a, b bool) bool { return !a || b }
 func elems[T any](s []T) []T { panic("spec-only") }
+func allelems[T any](s []T) []T { panic("spec-only") }
 func arr[T any](s []T) int { panic("spec-only") }
 func off[T any](s []T) int { panic("spec-only") }
 func ref(p any) int { panic("spec-only") }
@@ -217,6 +218,7 @@ func bits(f float64) uint64 { return math.Float64bits(f) }
 func isnan(f float64) bool { return f != f }
 func feq(a, b float64) bool { return a == b }
 func fsame(a, b float64) bool { return math.Float64bits(a) == math.Float64bits(b) || (a != a && b != b) }
+func eqv[T any](a, b T) bool { panic("spec-only") }
 func fst2[A, B any](a A, b B) A { return a }
 func snd2[A, B any](a A, b B) B { return b }
 `
